@@ -70,6 +70,7 @@ class World:
         self.dirty = set()           # existing objects modified in the current transaction
         self.explicit = set()        # fresh objects that were added explicitly (stored even if unreachable)
         self.last_stored = set()     # names whose records the last commit must have written
+        self.other_changed = set()   # committed objects another connection changed since our last boundary
         self.n = 0
         self.counter = 100
 
@@ -114,6 +115,31 @@ class World:
         del self.work[name]
         return 'D:' + name
 
+    def other_commit(self, i):
+        """Another connection changes a committed object and commits (our snapshot does not see it yet)."""
+        names = sorted(self.committed)
+        if not names:
+            return None
+        name = names[i % len(names)]
+        tm2 = self.transaction.TransactionManager()
+        c2 = self.db.open(tm2)
+        try:
+            self.counter += 1
+            c2.root()[name].v = self.counter
+            tm2.commit()
+        finally:
+            c2.close()
+        self.committed[name] = self.counter
+        self.other_changed.add(name)
+        return 'O:' + name
+
+    def _boundary(self):
+        """At a transaction boundary our connection catches up with what others committed."""
+        for name in self.other_changed:
+            if name in self.committed and name in self.work:
+                self.work[name] = self.committed[name]
+        self.other_changed = set()
+
     def savepoint(self):
         sp = self.tm.savepoint()
         self.sps.append((sp, dict(self.work), set(self.fresh), getattr(self, 'work_scalar', None), set(self.dirty), set(self.explicit)))
@@ -134,18 +160,42 @@ class World:
         return 'R%d' % k
 
     def commit(self):
-        self.tm.commit()
+        from ZODB.POSException import ConflictError
+        conflict = bool(self.dirty & self.other_changed)
+        try:
+            self.tm.commit()
+            ok = True
+        except ConflictError:
+            ok = False
+            self.tm.abort()
+        check(ok == (not conflict), 'commit outcome differs from the model: a write based on a stale revision was accepted, or a '
+                                    'commit without any conflict was refused', 'conflict expected' if conflict else 'no conflict expected')
+        if not ok:
+            self.work = dict(self.committed)
+            self.work_scalar = getattr(self, 'committed_scalar', None)
+            self.fresh = set()
+            self.dirty = set()
+            self.explicit = set()
+            self.sps = []
+            self.other_changed = set()
+            return 'C!conflict'
         # stored: modified existing objects (reachable or not), new objects that are reachable, and new
         # objects that were added explicitly
         self.last_stored = set(self.dirty) | set(n for n in self.fresh if n in self.work or n in self.explicit)
         self.ever.update(self.last_stored)
+        others = dict((n, self.committed[n]) for n in self.other_changed if n in self.committed)
+        self.committed = dict(self.work)
+        for n, v in others.items():
+            if n not in self.dirty and n in self.committed:
+                self.committed[n] = v
         self.dirty = set()
         self.explicit = set()
-        self.committed = dict(self.work)
         self.ever.update(self.work)
         self.committed_scalar = getattr(self, 'work_scalar', None)
         self.fresh = set()
         self.sps = []
+        self.work = dict(self.committed)
+        self.other_changed = set()
         return 'C'
 
     def abort(self):
@@ -156,17 +206,19 @@ class World:
         self.dirty = set()
         self.explicit = set()
         self.sps = []
+        self.other_changed = set()
         return 'X'
 
     def failing_commit(self, phase, first):
         """Commit that fails because another participant fails in `phase`."""
         dm = FailingDM(self.tm, phase, first)
         self.tm.get().join(dm)
+        from ZODB.POSException import ConflictError
         try:
             self.tm.commit()
             fail('commit with a failing participant succeeded')
-        except RuntimeError:
-            pass
+        except (RuntimeError, ConflictError):
+            pass                      # (a conflict with another connection's commit may come first)
         self.tm.abort()
         self.work = dict(self.committed)
         self.work_scalar = getattr(self, 'committed_scalar', None)
@@ -174,6 +226,7 @@ class World:
         self.dirty = set()
         self.explicit = set()
         self.sps = []
+        self.other_changed = set()
         return 'F:%s%s' % (phase, '<' if first else '>')
 
     # -- checks -------------------------------------------------------------
